@@ -134,3 +134,50 @@ def region_check(res, harness, fn, spec, insyms, out_index, nout, ref, tolabs, l
         elif found:
             cex(found, f'{label}: on a data-dependent path (|pc|={len(p.m.pc)}) output {k} leaves the tolerance band'); return False
     return True
+
+# ---------------------------------------------------------------- exact polynomial propagation (degree-bounded) through the DAG
+class PolyTooBig(Exception): pass
+def p_add(a, b, sg=1):
+    r = dict(a)
+    for k, c in b.items():
+        n = r.get(k, 0) + sg * c
+        if n == 0: r.pop(k, None)
+        else: r[k] = n
+    return r
+def p_mul(a, b, maxdeg):
+    r = {}
+    for k1, c1 in a.items():
+        for k2, c2 in b.items():
+            k = tuple(sorted(k1 + k2))
+            if len(k) > maxdeg: raise PolyTooBig(f'degree > {maxdeg}')
+            n = r.get(k, 0) + c1 * c2
+            if n == 0: r.pop(k, None)
+            else: r[k] = n
+    return r
+def poly_forms(outs, maxdeg=2):
+    """-> list of polynomials {monomial tuple of symbol names: Fraction}; division only by constants.  Raises NonLinear / PolyTooBig otherwise."""
+    val = {}
+    def g(a): return val[a.id] if isF(a) else ({(): Fraction(a)} if a != 0 else {})
+    for f in topo(outs):
+        op = f.op
+        if op == 'sym': v = {(f.args[0],): Fraction(1)}
+        elif op == 'fneg': v = {k: -c for k, c in g(f.args[0]).items()}
+        elif op == 'fadd': v = p_add(g(f.args[0]), g(f.args[1]))
+        elif op == 'fsub': v = p_add(g(f.args[0]), g(f.args[1]), -1)
+        elif op == 'fmul': v = p_mul(g(f.args[0]), g(f.args[1]), maxdeg)
+        elif op == 'fdiv':
+            b = g(f.args[1])
+            if set(b) - {()} or not b: raise NonLinear(f'division by a non-constant at {f}')
+            v = {k: c / b[()] for k, c in g(f.args[0]).items()}
+        else: raise NonLinear(f'op {op} at {f}')
+        val[f.id] = v
+    return [g(o) for o in outs]
+def poly_l1_diff(p, q):
+    ks = set(p) | set(q); return sum(abs(p.get(k, 0) - q.get(k, 0)) for k in ks)
+def poly_eval(p, env):
+    tot = Fraction(0)
+    for k, c in p.items():
+        t = c
+        for s in k: t *= env[s]
+        tot += t
+    return tot
